@@ -852,7 +852,7 @@ def normalize_slice(length: int, index: Union[int, slice]) -> slice:
     if index.step is not None:
         raise NotImplementedError("You can't use steps with slicing yet")
     if is_int:
-        if index.start < 0 or index.start > length:
+        if index.start < 0 or index.start >= length:
             raise IndexError(f"index out of bounds: {index!r} for length {length}")
     return index
 
